@@ -6,9 +6,10 @@ from .. import core, engcorpus
 
 # property -> trace spec whose clauses decide it
 SPEC_OF = {
+    "C10": "CommandsTrace", "C11": "CommandsTrace", "C12": "CommandsTrace",
     "C06": "RunStateTrace", "C07": "RunStateTrace", "C08": "RunStateTrace", "C09": "RunStateTrace", "C13": "RunStateTrace",
 }
-PROJECT = {"RunStateTrace": engcorpus.project_runstate}
+PROJECT = {"RunStateTrace": engcorpus.project_runstate, "CommandsTrace": engcorpus.project_commands}
 
 
 def _validate(ctx, spec, corp):
